@@ -5,6 +5,8 @@ package main
 
 import (
 	"fmt"
+	"github.com/gardenbed/emerge/internal/ebnf/parser/spec"
+	"io"
 	"strings"
 	"time"
 
@@ -357,6 +359,51 @@ func c13Outcome(text string) (rendering string, panicked bool) {
 	return b.String(), false
 }
 
+// chunkedReader delivers its text in portions of the given sizes (cyclically), like a pipe, a terminal or a decompressor.
+type chunkedReader struct {
+	text  string
+	sizes []int
+	pos   int
+	k     int
+}
+
+func (r *chunkedReader) Read(p []byte) (int, error) {
+	if r.pos >= len(r.text) {
+		return 0, io.EOF
+	}
+	n := r.sizes[r.k%len(r.sizes)]
+	r.k++
+	if n > len(p) {
+		n = len(p)
+	}
+	if n > len(r.text)-r.pos {
+		n = len(r.text) - r.pos
+	}
+	copy(p, r.text[r.pos:r.pos+n])
+	r.pos += n
+	if r.pos >= len(r.text) && r.k%2 == 0 {
+		return n, io.EOF // the last bytes and the end of input in one call
+	}
+	return n, nil
+}
+
+// c13RenderVia parses a specification delivered by an arbitrary reader and renders the outcome.
+func c13RenderVia(rd io.Reader) (string, bool) {
+	var out string
+	pv, _ := safely(func() {
+		sp, err := spec.Parse(fileName, rd)
+		if err != nil {
+			out = "ERROR " + err.Error()
+			return
+		}
+		var o specObs
+		o.S = sp
+		fillSpecObs(&o, sp)
+		out = o.render()
+	})
+	return out, pv != nil
+}
+
 func runC13(c *ctx) {
 	r := c.rng("bases")
 	var bases []c13Base
@@ -422,6 +469,33 @@ func runC13(c *ctx) {
 			c.inconclusive("well-formed base rejected (C07's business)")
 			c.note("base rejected: %q -> %s", canon, firstLines(base, 4))
 			continue
+		}
+		// (0) the same text delivered in portions: one byte at a time, in halves, in odd sizes, one full buffer and then
+		// crumbs; short and long (padded beyond 64 KiB, the capacity of a pipe)
+		if bi < c.n(6, 40) {
+			for ti, text := range []string{canon, "// " + strings.Repeat("padding ", 9000) + "\n" + canon, canon + strings.Repeat("\n", 5000)} {
+				whole, p0 := c13RenderVia(strings.NewReader(text))
+				if p0 {
+					continue
+				}
+				for si, sizes := range [][]int{{1}, {2, 3}, {4096, 1}, {4095}, {4096}, {4097, 5}, {1 << 16, 7}, {len(text)/2 + 1}, {len(text) - 1, 1}} {
+					if !c.mine() {
+						continue
+					}
+					c.eval()
+					got, pv := c13RenderVia(&chunkedReader{text: text, sizes: sizes})
+					c.count("deliveries_in_portions", 1)
+					c.nontrivial(fmt.Sprintf("%s/portions/%d/%d", b.name, ti, si))
+					if pv {
+						c.inconclusive("panic (C14's business)")
+						continue
+					}
+					if got != whole {
+						c.violate(violation{Case: fmt.Sprintf("%s/portions%d.%d", b.name, ti, si), Input: map[string]any{"text_bytes": len(text), "text_head": firstLines(canon, 3), "portion_sizes": sizes},
+							Observed: "delivered in portions: " + firstDiffLine(got, whole), Expected: "the same result as when the text is delivered at once"})
+					}
+				}
+			}
 		}
 		// (i) layouts. Optional semicolons: toggled on the typed level is not possible from tokens; instead drop/keep each
 		// ';' that directly follows a token declaration / name / directive when the reference still reads the same tree.
